@@ -11,6 +11,7 @@ ALSO = {"S_C09": ["C02", "C14"], "S_C16": ["C03"], "S_C03": ["C16", "C13"], "S_C
         "S6_C03": ["C12", "C13"], "S6_C12": ["C03"], "S6_C13": ["C03"], "S6_C04": ["C16"], "S6_C01": ["C12", "C10"], "S6_C02": ["C09"],
         "S7_C09": ["C08"], "S7_C16": ["C03"], "S7_C17": ["C03", "C13"], "S7_C11": ["C06"], "S7_C15": ["C05"],
         "S8_C12": ["C03"], "S8_C13": ["C03"], "S8_C02": ["C11"], "S8_C14": ["C06"],
+        "S11_C13": ["C03"], "S11_C17": ["C03"], "S11_C15": ["C11"], "S11_C01": ["C12"],
         "S10_C03": ["C13"], "S10_C16": ["C03"], "S10_C09": ["C02"], "S10_C12": ["C04"],
         "S9_C16": ["C04"], "S9_C07": ["C15"], "S9_C06": ["C03"], "S9_C09": ["C02"], "S9_C17": ["C09"],
         "S5_C16": ["C04"], "S5_C06": ["C04"], "S5_C09": ["C02"], "S5_C15": ["C05"], "S5_C07": ["C05"],
